@@ -272,7 +272,7 @@ def u_lemma(ctx):
 @unit("C16", "_types:RenderArgs.__new__")
 def u_new(ctx):
     obs = []
-    for init_kind in ("none", "base", "interned-default", "non-default", "non-default-same-class", "namespace"):
+    for init_kind in ("none", "base", "interned-default", "non-default", "non-default-same-class", "namespace", "equal-to-the-interned-default-but-another-object"):
         for n_ns in (0, 1):
             for rel in ("same", "target-is-subclass", "unrelated"):
                 if init_kind in ("none", "base", "namespace") and rel != "same":
@@ -294,7 +294,13 @@ def u_new(ctx):
                 eng.genv["BASE_RENDER_ARGS"] = BASE
                 interned_default_of_target = st.new("RenderArgs", {"render_cls": target, "interned": True})
                 has_interned = z3.Bool("target_has_an_interned_default")
+                # a set that compares EQUAL to the interned default of its class without being that object (built from namespaces equal to
+                # the defaults): it is an ordinary, caller-owned set - identity, not equality, is what marks the shared default
+                twin_default = st.new("RenderArgs", {"render_cls": init_cls, "interned": True})
+                eng.methods[("RenderArgs", "__eq__")] = lambda e, s, recv, a, k: [(recv is a[0] or {recv.id, getattr(a[0], "id", None)} == {twin_default.id, init_obj.id}
+                                                                                   if init_kind.startswith("equal-to") else recv is a[0], s)]
                 init_obj = {"none": None, "base": BASE, "namespace": Rec("ArgsNamespace", {"id": 7}),
+                            "equal-to-the-interned-default-but-another-object": st.new("RenderArgs", {"render_cls": init_cls, "interned": False}),
                             "interned-default": st.new("RenderArgs", {"render_cls": init_cls, "interned": True}),
                             "non-default": st.new("RenderArgs", {"render_cls": init_cls, "interned": False}),
                             "non-default-same-class": st.new("RenderArgs", {"render_cls": target, "interned": False})}[init_kind]
@@ -303,6 +309,8 @@ def u_new(ctx):
                 def int_get(e, s, recv, a, k):
                     if init_kind == "interned-default" and a[0] is init_cls:
                         return [(init_obj, s)]
+                    if init_kind.startswith("equal-to") and a[0] is init_cls:
+                        return [(twin_default, s)]
                     return [(None, s)]
 
                 def int_getitem(e, s, recv, a, k):
@@ -324,7 +332,7 @@ def u_new(ctx):
                 ns = tuple(Rec("ArgsNamespace", {"id": 10 + i}) for i in range(n_ns))
                 st.env.update(cls=cls, render_cls=target, init_or_namespace=init_obj, namespaces=ns)
                 outs = run_function(eng, ctx.fn(TY, "RenderArgs.__new__"), st)
-                is_init_ra = init_kind in ("base", "interned-default", "non-default", "non-default-same-class")
+                is_init_ra = init_kind in ("base", "interned-default", "non-default", "non-default-same-class") or init_kind.startswith("equal-to")
                 incompatible = is_init_ra and init_kind != "base" and not sub
                 default_only = n_ns == 0 and init_kind in ("none", "base", "interned-default")
                 for kind, val, s in outs:
@@ -337,7 +345,7 @@ def u_new(ctx):
                     elif default_only:
                         # the default set of a class exists once: the interned object if there is one, else a fresh object (to be interned by __init__)
                         eng.oblige("default-set:interned-object-reused,else-fresh", s, z3.If(has_interned, z3.BoolVal(val is interned_default_of_target), z3.BoolVal(val is fresh)), kind="post")
-                    elif n_ns == 0 and (init_kind == "non-default-same-class" or (init_kind == "non-default" and init_cls is target)):
+                    elif n_ns == 0 and (init_kind == "non-default-same-class" or (init_kind in ("non-default", "equal-to-the-interned-default-but-another-object") and init_cls is target)):
                         eng.oblige("same-class,no-namespaces:the-initial-set-itself(equal-by-construction)", s, val is init_obj, kind="post")
                     else:
                         eng.oblige("otherwise-a-new-object(never-an-existing-one)", s, val is fresh, kind="post")
